@@ -172,7 +172,7 @@ theorem postcheck_sound (h : Bytes → Bytes) (c : Consensus) (i : PostIn) (f : 
                   injection htx' with h1 h2
                   subst h1 h2
                   have hroot' : root = i.merkleRoot := by simpa using hroot
-                  refine ⟨by omega, by simpa using hbuild, by simpa [htxs] using hw, rfl, by rw [hroot'], cb, rest, rfl, hcb, by simpa using hm, ?_, ?_, ?_⟩
+                  refine ⟨by omega, by simpa using hbuild, by simpa [htxs, Proofs.C05.builtWeight_eq] using hw, rfl, by rw [hroot'], cb, rest, rfl, hcb, by simpa using hm, ?_, ?_, ?_⟩
                   · intro hge
                     simpa [hge] using h34
                   · rw [← htxs]; exact hwit
@@ -533,6 +533,38 @@ theorem weight_formula (txs : List Tx) :
   rw [Proofs.C05.sum_weight]
   omega
 
+/-- **The weight held against the limit does not depend on how the block object came to be.** A `*btc.Block` keeps
+    (TxCount, TxOffset): set from the whole serialisation by NewBlock / UpdateContent, but still 0 when the object was
+    made from the 80-byte header (PreCheckBlock on the announced header) and the body was attached later by
+    `bl.Raw = …` — the way the client handles every block it downloads — or after the hand reset that follows a corrupt
+    copy. Whatever value `c` the counter has when BuildTxList is entered, the weight it leaves in `bl.BlockWeight` is
+    BIP141's weight of the transactions parsed (`weight_formula`), with the transaction counter weighed at its real
+    length (1 / 3 / 5 / 9 bytes); and PostCheckBlock's answer is the same for every such value. Rests on the
+    regenerated source fact `buildTxListReadsCountAfterFallback` (the base weight reads the counter only after the
+    `TxCount == 0` fallback has parsed it): with the base weight computed above the fallback, a header-first object is
+    weighed with a 1-byte counter and a block of 253..65535 transactions weighing 4,000,001..4,000,008 passes. -/
+theorem weight_entry_path_independent (h : Bytes → Bytes) (cns : Consensus) (i : PostIn) (c : Nat) :
+    builtWeight c i.txs = blockWeight i.txs ∧
+    postCheckBlock h cns { i with cntOnEntry := c } = postCheckBlock h cns i := by
+  refine ⟨Proofs.C05.builtWeight_eq c i.txs, ?_⟩
+  unfold postCheckBlock
+  simp only [Proofs.C05.builtWeight_eq]
+  rfl
+
+/-- the boundary of `weight_entry_path_independent`: 252 transactions of 3,952 bytes and one of 4,013 bytes, no witness
+    data, weigh 4·(80+3+252·3952+4013) = 4,000,000 — within the limit; with the last one a byte longer 4,000,004 — not;
+    for an object entered with TxCount = 0 (header first) as for one entered with TxCount = 253. Weighed with a
+    1-byte counter the second block would come to 3,999,996 and pass. -/
+example :
+    let t (n : Nat) : Tx := { ins := [], in0Script := [], outs := [], outValues := [], segwit := none, txid := [], wtxid := [],
+                              lockTime := 0, noWitSize := n, size := n }
+    let txs (last : Nat) : List Tx := List.replicate 252 (t 3952) ++ [t last]
+    builtWeight 0 (txs 4013) = 4000000 ∧ builtWeight 253 (txs 4013) = 4000000 ∧
+    builtWeight 0 (txs 4014) = 4000004 ∧ builtWeight 253 (txs 4014) = 4000004 ∧
+    decide (builtWeight 0 (txs 4014) > postMaxWeight) = true ∧
+    4 * (80 + CompactSize.vlenSize 0) + ((txs 4014).map (fun t => 3 * t.noWitSize + t.size)).sum = 3999996 := by
+  decide +kernel
+
 /-- The commitment output used by PostCheckBlock is the LAST output of the coinbase that is at least 38 bytes
     long and starts with 6a24aa21a9ed (BIP141: "the one with the highest output index"). -/
 theorem commitment_is_last_matching (outs : List Bytes) (pk : Bytes) (h : findCommitment outs.reverse = some pk) :
@@ -571,14 +603,15 @@ theorem checkBlock_chain_unchanged {U : Type} (p : Params) (c : Consensus) (h : 
     structure; that the Go code writes nothing is what the harness's before/after snapshot of the real chain object
     tests). When `Chain.CheckBlock` refuses a block
     (any result other than `ok`), the chain state — block tree, `BlockIndex`, tip, unspent set — is returned
-    unchanged, and the block object differs from the one handed in at most in the four fields the function
-    assigns on its way (`Height`, `MedianPastTime`, `Txs`, `VerifyFlags`): everything derived from `Raw`, the hash
+    unchanged, and the block object differs from the one handed in at most in the five fields the function
+    assigns on its way (`Height`, `MedianPastTime`, `Txs`, `VerifyFlags`, and `TxCount` when it was still 0 and
+    BuildTxList parsed the count field): everything derived from `Raw`, the hash
     and the trusted mark are as before. -/
 theorem refused_unchanged {U : Type} (p : Params) (c : Consensus) (h : Bytes → Bytes) (now : Int)
     (cs cs' : ChainSt U) (bl bl' : BlockObj) (r : CheckRes)
     (hr : checkBlockM p c h now cs bl = some (cs', bl', r)) (_hne : r.code ≠ "ok") :
     cs' = cs ∧
-    { bl' with height := bl.height, mtp := bl.mtp, txs := bl.txs, verifyFlags := bl.verifyFlags } = bl := by
+    { bl' with height := bl.height, mtp := bl.mtp, txs := bl.txs, verifyFlags := bl.verifyFlags, txCount := bl.txCount } = bl := by
   refine ⟨checkBlock_chain_unchanged p c h now cs cs' bl bl' r hr, ?_⟩
   unfold checkBlockM at hr
   split at hr
